@@ -45,19 +45,22 @@ func normSlash(p string) string {
 func checkC01(c RoutingCase) (vs []*Violation) {
 	st := stats.For("C01", "TestC01")
 	rec := harness.NewRecorder()
-	ct, p := buildDispatchOnly(c.Table, c.Router, rec, 2)
+	ct, p := buildRouting(c, rec, 2)
 	if p != nil {
 		return []*Violation{viol("", "building the table panicked: %v", p)}
 	}
 	harness.SetTrace(c.Trace)
 	defer harness.SetTrace(false)
 	nontrivial := false
-	labels := []string{"router_" + c.Router}
+	labels := []string{"router_" + c.Router, "via_" + viaOf(c)}
 	for i, req := range c.Reqs {
-		o := harness.Do(ct, rec, req, harness.ViaDispatch, strconv.Itoa(i))
+		o := harness.Do(ct, rec, req, viaOf(c), strconv.Itoa(i))
 		where := c.Router + " " + req.Method + " " + strconv.Quote(req.Path)
 		if o.Panic != "" {
-			vs = append(vs, viol("", "%s: Dispatch panicked: %s", where, o.Panic))
+			vs = append(vs, viol("", "%s: %s panicked: %s", where, viaOf(c), o.Panic))
+			continue
+		}
+		if muxAnswered(viaOf(c), o) {
 			continue
 		}
 		labels = append(labels, "outcome_"+outcomeClass(o))
